@@ -115,7 +115,8 @@ Theorem judge_dec_accepts_model data : bytes_ok data -> N.of_nat (length data) <
 Proof.
   intros Hok HL. unfold judge_dec. apply combine_known.
   - (* strict half *)
-    unfold judge_dec_strict, model_dec. cbn [d_strict d_acc d_reparsed d_reward].
+    unfold judge_dec_strict, model_dec. cbn [d_strict d_acc d_reparsed d_reward d_hex].
+    rewrite (res_eqb_refl address_eqb address_eqb_refl). cbn [negb].
     pose proof (strict_accepts_iff data Hok) as Hspec.
     destruct (from_bytes data) as [a| | |] eqn:S.
     + left. cbn [is_ok] in Hspec. rewrite <- Hspec.
@@ -158,7 +159,8 @@ Proof.
   destruct (judge_dec_accepts_model _ Hok HL) as [H|(c & Hc & H)]; [exact H|exfalso].
   unfold judge_dec in H.
   assert (HS : judge_dec_strict (to_bytes a) (model_dec (to_bytes a)) = Holds).
-  { unfold judge_dec_strict, model_dec. cbn [d_strict d_acc d_reparsed d_reward].
+  { unfold judge_dec_strict, model_dec. cbn [d_strict d_acc d_reparsed d_reward d_hex].
+    rewrite (res_eqb_refl address_eqb address_eqb_refl). cbn [negb].
     pose proof (address_roundtrip a Hwf) as S. pose proof (strict_accepts_iff _ Hok) as Hspec.
     rewrite S in *. cbn [is_ok] in Hspec. rewrite <- Hspec.
     rewrite (classify_parsed false _ a Hok S), (acc_agrees_of_header a _ (classify_parsed false _ a Hok S)).
